@@ -179,7 +179,7 @@ def runOp (kind : String) (c : Cfg) (toks : List String) (vars : List (Option VS
     | "reserve" | "reserve_exact" | "try_reserve" | "try_reserve_exact" =>
       match reserveOp c v (n "n") (name == "reserve_exact" || name == "try_reserve_exact") with
       | .ok v => some (setV vars j (some v), w, "ok")
-      | .error _ => some (vars, w, if name.startsWith "try_" then "err" else "panic")
+      | .error e => some (vars, w, if name.startsWith "try_" then (if e == .capOverflow then "err:cap" else "err:alloc") else "panic")
     | "shrink" =>
       match shrinkToFit c v with
       | some v => some (setV vars j (some v), w, "ok")
